@@ -1,13 +1,13 @@
 package main
 
 import (
-	"golang.org/x/tools/go/packages"
-	"regexp"
 	"fmt"
 	"go/ast"
 	"go/constant"
 	"go/token"
 	"go/types"
+	"golang.org/x/tools/go/packages"
+	"regexp"
 	"sort"
 	"strings"
 
